@@ -456,7 +456,7 @@ theorem accepted_is_definition (st : GoStruct) (rw : RW) (h : Msg.init st = .ok 
     Option.pure_def]
   have c1 : (sfs.dropWhile (!·.ext)).all (·.ext) = true := by
     rw [dropWhile_all_map (·.ext) (·.isExt) sfs fs e1]; exact hext
-  have c3 : Spec.Msg.sizeExt { name := Spec.Msg.snakeUpper (st.name.drop 7).toString, fields := sfs } ≤ 255 := by
+  have c3 : Spec.Msg.sizeExt { name := Spec.Msg.snakeUpper (Msg.msgSuffix st.name), fields := sfs } ≤ 255 := by
     unfold Spec.Msg.sizeExt
     simp only [e2]
     exact hsz
@@ -473,5 +473,221 @@ theorem accepted_is_definition (st : GoStruct) (rw : RW) (h : Msg.init st = .ok 
     cases ha : sf.arr with
     | none => rfl
     | some n => rw [ha] at this; simp [this.1, this.2]
+
+/-! ### every definition is accepted (the converse) -/
+
+theorem initField_of_fieldOfGo (i : Nat) (f : GoField) (sf : Spec.Msg.SField)
+    (h : Spec.Msg.fieldOfGo i f = some sf) (ha : arrOk sf) :
+    ∃ d, initField i f = .ok d ∧ d.isExt = sf.ext ∧ sizeNat d = sf.size := by
+  obtain ⟨hex, hc⟩ := fieldOfGo_ok i f sf h
+  unfold Spec.Msg.fieldOfGoCore at hc
+  have hts := fun t => sizes_tbl t
+  -- the two guards of initField, once the array length is known to be in range
+  have guard : (f.isArray = true → 1 ≤ f.arrLen ∧ f.arrLen ≤ 255) → initField i f = initFieldCore i f := by
+    intro hr
+    unfold initField
+    simp only [hex, Bool.not_true, Bool.false_eq_true, if_false]
+    by_cases hi : f.isArray = true
+    · obtain ⟨lo, hi2⟩ := hr hi
+      have : (decide (f.arrLen < 1) || decide (f.arrLen > 255)) = false := by
+        simp only [Bool.or_eq_false_iff, decide_eq_false_iff_not]; omega
+      rw [hi, this]; rfl
+    · have : f.isArray = false := by simpa using hi
+      simp [this]
+  by_cases he : f.mavenum ≠ ""
+  · rw [if_pos he] at hc
+    simp only [Option.bind_eq_bind, Option.pure_def] at hc
+    split at hc
+    · cases hc
+    · rename_i hu
+      have hu' : f.elemIsUint64 = true := by simpa using hu
+      cases ht : Gen.fieldTypeFromGo f.mavenum with
+      | none => rw [ht] at hc; cases hc
+      | some t =>
+        rw [ht] at hc
+        simp only [Option.bind_some] at hc
+        split at hc
+        · cases hc
+        · rename_i hcap
+          simp only [Option.some.injEq] at hc
+          subst hc
+          have hcap' : Gen.enumCapable t = true := by
+            rw [enumCapable_eq]
+            cases hb : (t == Gen.FType.uint8 || t == Gen.FType.int8 || t == Gen.FType.uint16 || t == Gen.FType.uint32 ||
+              t == Gen.FType.int32 || t == Gen.FType.uint64) with
+            | true => rfl
+            | false => rw [hb] at hcap; exact absurd rfl hcap
+          have hr : f.isArray = true → 1 ≤ f.arrLen ∧ f.arrLen ≤ 255 := by
+            intro hi; unfold arrOk at ha; simpa [hi] using ha
+          rw [guard hr]
+          unfold initFieldCore
+          simp only [he, ne_eq, not_false_eq_true, if_true, hu', Bool.not_true, Bool.false_eq_true, if_false, ht, hcap',
+            pure, Except.pure]
+          refine ⟨_, rfl, rfl, ?_⟩
+          unfold Spec.Msg.SField.size sizeNat
+          by_cases hi : f.isArray = true
+          · obtain ⟨lo, hi2⟩ := hr hi
+            have hgt : UInt8.ofNat f.arrLen > 0 := by
+              rw [gt_iff_lt, UInt8.lt_iff_toNat_lt]
+              simp only [UInt8.toNat_ofNat', UInt8.toNat_zero]; omega
+            have : f.arrLen % 2 ^ 8 = f.arrLen := by omega
+            simp [hi, hgt, hts, this]
+          · have hi' : f.isArray = false := by simpa using hi
+            have : ¬ ((0 : UInt8) > 0) := by decide
+            simp [hi', this, hts]
+  · rw [if_neg he] at hc
+    simp only [Option.bind_eq_bind, Option.pure_def] at hc
+    by_cases hs : (f.elemType == "string") = true
+    · have hs' : f.elemType = "string" := by simpa using hs
+      rw [if_pos hs] at hc
+      split at hc
+      · cases hc
+      · rename_i hna
+        have hna' : f.isArray = false := by simpa using hna
+        have hr : f.isArray = true → 1 ≤ f.arrLen ∧ f.arrLen ≤ 255 := by intro hi; rw [hna'] at hi; cases hi
+        rw [guard hr]
+        unfold initFieldCore
+        have htc : Gen.fieldTypeFromGo f.elemType = some .char := by rw [hs']; rfl
+        split at hc
+        · rename_i hl
+          have hl' : f.mavlen = "" := by simpa using hl
+          simp only [Option.some.injEq] at hc
+          subst hc
+          simp only [he, if_false, htc, hs, if_true, hna', Bool.false_eq_true, hl', String.length_empty, beq_self_eq_true,
+            bind, Except.bind, pure, Except.pure]
+          refine ⟨_, rfl, rfl, ?_⟩
+          unfold Spec.Msg.SField.size sizeNat
+          have : ((1 : UInt8) > 0) := by decide
+          simp [this, Spec.Msg.tySize]
+          rfl
+        · rename_i hl
+          have hl' : ¬ f.mavlen = "" := by simpa using hl
+          have hl2 : (f.mavlen.length == 0) = false := by
+            have : f.mavlen.length ≠ 0 := fun h0 => hl' (String.length_eq_zero_iff.mp h0)
+            simpa using this
+          cases hp : Spec.Msg.parseLen f.mavlen with
+          | none => rw [hp] at hc; cases hc
+          | some n =>
+            rw [hp] at hc
+            simp only [Option.bind_some, Option.some.injEq] at hc
+            subst hc
+            unfold arrOk at ha
+            simp only at ha
+            obtain ⟨lo, hi2⟩ := ha
+            have hat := atoi_of_parseLen _ _ hp
+            have hrange : ((n : Int) < 1 || (n : Int) > 255) = false := by
+              simp only [Bool.or_eq_false_iff, decide_eq_false_iff_not]; omega
+            simp only [he, if_false, htc, hs, if_true, hna', Bool.false_eq_true, hl2, hat, hrange,
+              bind, Except.bind, pure, Except.pure]
+            refine ⟨_, rfl, rfl, ?_⟩
+            unfold Spec.Msg.SField.size sizeNat
+            have hb : byteOfInt (n : Int) = UInt8.ofNat n := byteOfInt_nat n
+            have hgt : UInt8.ofNat n > 0 := by
+              rw [gt_iff_lt, UInt8.lt_iff_toNat_lt]
+              simp only [UInt8.toNat_ofNat', UInt8.toNat_zero]; omega
+            have : n % 2 ^ 8 = n := by omega
+            simp [hb, hgt, this, Spec.Msg.tySize]
+            have : (Gen.fieldTypeSizes Gen.FType.char).toNat = 1 := rfl
+            rw [this]; omega
+    · rw [if_neg hs] at hc
+      cases ht : Gen.fieldTypeFromGo f.elemType with
+      | none => rw [ht] at hc; cases hc
+      | some t =>
+        rw [ht] at hc
+        simp only [Option.bind_some, Option.some.injEq] at hc
+        subst hc
+        have hr : f.isArray = true → 1 ≤ f.arrLen ∧ f.arrLen ≤ 255 := by
+          intro hi; unfold arrOk at ha; simpa [hi] using ha
+        rw [guard hr]
+        unfold initFieldCore
+        simp only [he, if_false, ht, hs, Bool.false_eq_true, bind, Except.bind, pure, Except.pure]
+        refine ⟨_, rfl, rfl, ?_⟩
+        unfold Spec.Msg.SField.size sizeNat
+        by_cases hi : f.isArray = true
+        · obtain ⟨lo, hi2⟩ := hr hi
+          have hgt : UInt8.ofNat f.arrLen > 0 := by
+            rw [gt_iff_lt, UInt8.lt_iff_toNat_lt]
+            simp only [UInt8.toNat_ofNat', UInt8.toNat_zero]; omega
+          have : f.arrLen % 2 ^ 8 = f.arrLen := by omega
+          simp [hi, hgt, hts, this]
+        · have hi' : f.isArray = false := by simpa using hi
+          have : ¬ ((0 : UInt8) > 0) := by decide
+          simp [hi', this, hts]
+
+theorem initFields_of_fieldsOfGo : ∀ (gfs : List GoField) (i : Nat) (sfs : List Spec.Msg.SField),
+    Spec.Msg.fieldsOfGo i gfs = some sfs → (∀ sf ∈ sfs, arrOk sf) →
+    ∃ ds, initFields i gfs = .ok ds ∧ ds.map (·.isExt) = sfs.map (·.ext) ∧ ds.map sizeNat = sfs.map Spec.Msg.SField.size := by
+  intro gfs
+  induction gfs with
+  | nil =>
+    intro i sfs h _
+    simp [Spec.Msg.fieldsOfGo] at h
+    subst h
+    exact ⟨[], rfl, rfl, rfl⟩
+  | cons f r ih =>
+    intro i sfs h ha
+    simp only [Spec.Msg.fieldsOfGo, Option.bind_eq_bind] at h
+    cases hsf : Spec.Msg.fieldOfGo i f with
+    | none => simp [hsf] at h
+    | some sf =>
+      simp only [hsf, Option.bind_some] at h
+      cases hsr : Spec.Msg.fieldsOfGo (i + 1) r with
+      | none => simp [hsr] at h
+      | some sfs' =>
+        simp only [hsr, Option.bind_some, Option.pure_def, Option.some.injEq] at h
+        subst h
+        obtain ⟨d, hd, e1, e2⟩ := initField_of_fieldOfGo i f sf hsf (ha sf List.mem_cons_self)
+        obtain ⟨ds, hds, l1, l2⟩ := ih (i + 1) sfs' hsr (fun x hx => ha x (List.mem_cons_of_mem _ hx))
+        refine ⟨d :: ds, ?_, by simp [e1, l1], by simp [e2, l2]⟩
+        simp [initFields, hd, hds, bind, Except.bind, pure, Except.pure]
+
+/-- **every definition is accepted.** Together with `accepted_is_definition`: the model of `Initialize` accepts a struct exactly
+    when it is a MAVLink definition in the specification's sense. -/
+theorem definition_is_accepted (st : GoStruct) (d : Spec.Msg.SDef) (h : Spec.Msg.ofGo st = some d) :
+    ∃ rw, Msg.init st = .ok rw := by
+  unfold Spec.Msg.ofGo at h
+  simp only [Option.bind_eq_bind] at h
+  split at h
+  · cases h
+  · rename_i hname
+    cases hsf : Spec.Msg.fieldsOfGo 0 st.fields with
+    | none => simp [hsf] at h
+    | some sfs =>
+      simp only [hsf, Option.bind_some] at h
+      split at h
+      · rename_i hchk
+        simp only [Bool.and_eq_true, decide_eq_true_eq] at hchk
+        obtain ⟨⟨c1, c2⟩, c3⟩ := hchk
+        have harr : ∀ sf ∈ sfs, arrOk sf := by
+          intro sf hm
+          rw [List.all_eq_true] at c2
+          have := c2 sf hm
+          unfold arrOk
+          cases ha : sf.arr with
+          | none => trivial
+          | some n => rw [ha] at this; simpa using this
+        obtain ⟨fs, hfs, e1, e2⟩ := initFields_of_fieldsOfGo st.fields 0 sfs hsf harr
+        have hext : extOrderOk fs = true := by
+          unfold extOrderOk
+          rw [dropWhile_all_map (·.isExt) (·.ext) fs sfs e1]; exact c1
+        have hsz : ¬ sizeTotal fs > 255 := by
+          unfold sizeTotal
+          rw [e2]
+          unfold Spec.Msg.sizeExt at c3
+          simpa using c3
+        refine ⟨mkRW st fs, ?_⟩
+        unfold Msg.init
+        have hn : Msg.hasMsgPrefix st.name = true := by simpa using hname
+        simp [hn, hfs, hext, hsz]
+      · cases h
+
+/-- **C17: `Initialize` accepts exactly the definitions.** -/
+theorem accepted_iff_definition (st : GoStruct) : (∃ rw, Msg.init st = .ok rw) ↔ (Spec.Msg.ofGo st).isSome = true := by
+  constructor
+  · rintro ⟨rw, h⟩; exact accepted_is_definition st rw h
+  · intro h
+    cases hd : Spec.Msg.ofGo st with
+    | none => rw [hd] at h; cases h
+    | some d => exact definition_is_accepted st d hd
 
 end Mav.InitSound
